@@ -120,6 +120,9 @@ type Exec struct {
 	Points int
 }
 
+// Debug prints every scheduling point (replay diagnostics).
+var Debug = false
+
 var (
 	cur      *Exec
 	epochSeq int
@@ -271,6 +274,9 @@ func (x *Exec) point(o *op) {
 	t := x.cur
 	t.pending = o
 	x.Points++
+	if Debug {
+		fmt.Printf("  [t%d] at %s %s @%s\n", t.id, o.kind, o.desc, o.site)
+	}
 	next := x.pick()
 	if next == nil {
 		// nothing can run: end or deadlock. The current thread is parked too.
@@ -431,8 +437,14 @@ func Go(site string, f func()) {
 	if x.aborting {
 		return
 	}
-	x.newThread(site, false, f)
+	t := x.newThread(site, false, f)
+	if OnSpawn != nil {
+		OnSpawn(site, t.id)
+	}
 }
+
+// OnSpawn, when set by a harness, observes every background spawn (site, thread id).
+var OnSpawn func(site string, tid int)
 
 // GoFG spawns a foreground thread (must finish for the execution to be complete).
 func GoFG(site string, f func()) {
